@@ -10,12 +10,28 @@ META = {
     "property": "C09",
     "proof_modules": ["PyodaProofs.C09"],
     "drivers": ["drv_datearith"],
-    "theorems": [],
+    "theorems": [
+        "Pyoda.C09.plusDays_exact", "Pyoda.C09.plusWeeks_exact", "Pyoda.C09.fastPath_eq_slowPath",
+        "Pyoda.C09.addMonths_regular_spec", "Pyoda.C09.addMonths_regular_zero", "Pyoda.C09.addMonths_hebrew_spec",
+        "Pyoda.C09.hebrew_month_count", "Pyoda.C09.addMonths_badi_spec", "Pyoda.C09.setYear_spec", "Pyoda.C09.addYears_spec",
+        "Pyoda.C09.unitsBetween_maximal", "Pyoda.C09.unitsBetween_maximal_coarse", "Pyoda.C09.yearsBetween_maximal",
+        "Pyoda.C09.monthsBetween_maximal", "Pyoda.C09.betweenDates_spec", "Pyoda.C09.between_bounded",
+        "Pyoda.C09.between_hits_end", "Pyoda.C09.between_one_sign", "Pyoda.C09.between_units_subset",
+        "Pyoda.C09.timeComponents_exact", "Pyoda.C09.betweenTimes_spec", "Pyoda.C09.normalize_preserves_total",
+        "Pyoda.C09.toDuration_total", "Pyoda.C09.yearLen_gregorian", "Pyoda.C09.yearLen_julian", "Pyoda.C09.yearLen_coptic",
+        "Pyoda.C09.regular_gregorian", "Pyoda.C09.regular_julian", "Pyoda.C09.regular_coptic",
+    ],
     "trusted_base": [
         "calendar tables enter the theorems through C01's well-formedness predicate WF (proved per calendar in C01*)",
         "Decimal-based truncating division is exact below 10^27 (sampled by C03's prelude suite); amounts beyond are outside the model (!dom)",
     ],
-    "partial": [],
+    "partial": [
+        "between_bounded / between_hits_end / between_one_sign / between_units_subset / yearsBetween_maximal / monthsBetween_maximal are proved for Period.between(LocalDate, LocalDate) in every regular-family calendar (hypothesis RegularCal: WF from C01, 12 or 13 months in every year, packed comparison; instantiated for ISO/Gregorian, Julian, Coptic); for Hebrew and Badi the years/months units enter through the generic FieldLaw/CoarseUnit theorems as hypotheses and are decided by correspondence + oracle",
+        "plusDays_exact needs every year to have at least 299 days (YearLen; proved for Gregorian, Julian, Coptic, immediate for the others from their year-length definitions once their WF instances exist)",
+        "Period.between on LocalDateTime and YearMonth: model + correspondence + oracle only (the date part reuses dateComponents, the time part timeComponents_exact)",
+        "Hebrew _months_between (search loops) and Hebrew _set_year: model + correspondence + oracle; addMonths_hebrew_spec is proved in full (235-month cycle)",
+        "periods whose total reaches 10^27 ns and amounts of 10^27 months or more are outside the model (Decimal-based division no longer exact there)",
+    ],
     "rule": "start/end pairs biased to month ends, leap days, Adar/Adar II, Ayyam-i-Ha, year and range edges; amounts at +-299/300/301 days and across the 19/30/33/400-year cycles; all valid unit subsets per operand type; distinct = distinct op line; non-trivial = every op",
 }
 
@@ -698,7 +714,7 @@ def year_amounts(rng, o, a):
 def gen_plus_ops(ctx):
     rng = ctx.rng
     ops = []
-    n_dates = ctx.scale(60, 2500)
+    n_dates = ctx.scale(100, 2500)
     for o in ordinals():
         for i in range(n_dates):
             a = gen_date(rng, o)
@@ -723,7 +739,7 @@ def gen_between_ops(ctx):
     time_masks = [m << 4 for m in range(1, 64)]
     all_masks = list(range(1, 1024))
     for o in ordinals():
-        for _ in range(ctx.scale(100, 3000)):
+        for _ in range(ctx.scale(170, 3000)):
             a = gen_date(rng, o)
             b = gen_end(rng, o, a)
             pre = f"{o} {a[0]} {a[1]} {a[2]} {b[0]} {b[1]} {b[2]}"
@@ -731,13 +747,13 @@ def gen_between_ops(ctx):
             ops.append(f"period.between d {rng.choice([0, 16, 24, 512, 1023, 17])} {pre}")
             ops.append(f"date.daysbetween {pre}")
             ops += [f"period.between ym {mk} {o} {a[0]} {a[1]} {b[0]} {b[1]}" for mk in (1, 2, 3)]
-        for i in range(ctx.scale(14, 300)):
+        for i in range(ctx.scale(26, 300)):
             a = gen_date(rng, o)
             b = gen_end(rng, o, a)
             ta = gen_time(rng)
             tb = gen_time(rng, ta)
             pre = f"{o} {a[0]} {a[1]} {a[2]} {ta} {b[0]} {b[1]} {b[2]} {tb}"
-            masks = all_masks if (ctx.thorough or i < 2) else [1 << k for k in range(10)] + rng.sample(all_masks, 70)
+            masks = all_masks if (ctx.thorough or i < 3) else [1 << k for k in range(10)] + rng.sample(all_masks, 70)
             ops += [f"period.between dt {mk} {pre}" for mk in masks]
         ops.append(f"period.between ym {rng.choice([0, 4, 8, 7, 16])} {o} {a[0]} {a[1]} {b[0]} {b[1]}")
     # month differences at the ends of the Hebrew calendars and backwards out of Ayyam-i-Ha (Badi)
@@ -755,7 +771,7 @@ def gen_between_ops(ctx):
         b = clamp_date(18, y - rng.choice([0, 0, 1, 5]), rng.randint(1, 18), rng.randint(1, 6))
         ops += [f"period.between d {mk} 18 {a[0]} {a[1]} {a[2]} {b[0]} {b[1]} {b[2]}" for mk in (2, 3, 10, 15)]
     ops += ["period.between d 2 4 3603 8 29 1 1 19", "period.between d 2 18 564 18 22 1 11 1", "period.between ym 2 0 2020 1 2021 3"]
-    for _ in range(ctx.scale(150, 3000)):
+    for _ in range(ctx.scale(250, 3000)):
         ta = gen_time(rng)
         tb = gen_time(rng, ta)
         ops += [f"period.between t {mk} {ta} {tb}" for mk in time_masks]
